@@ -17,8 +17,71 @@ from c12 import H
 CB = os.path.join(build.VERIF, 'cbmc')
 
 
-def run_cbmc(N, witness=False, trace=False, timeout=3600):
-    cmd = ['cbmc', '--cpp11', '-DSWIG', '-DVERIF_N=%d' % N, '-DVERIF_STR_CAP=%d' % N, '-I', os.path.join(CB, 'stub'), '-I', os.path.join(build.REPO, 'src'), '-I', build.REPO,
+def named_namespaces(src):
+    """CBMC's C++ front end rejects unnamed namespaces ('unique namespace not supported yet'): every `namespace {...}` of the translation unit is
+    given a name and a using-directive after its closing brace (same lookup result; internal linkage is irrelevant for a single unit).
+    Comments and string/character literals are skipped when braces are matched."""
+    out, i, k = [], 0, 0
+    pat = re.compile(r'namespace\s*\{')
+    while True:
+        m = pat.search(src, i)
+        if m is None:
+            out.append(src[i:])
+            break
+        # not inside a comment line
+        ls = src.rfind('\n', 0, m.start()) + 1
+        if '//' in src[ls:m.start()]:
+            out.append(src[i:m.end()])
+            i = m.end()
+            continue
+        depth, j = 1, m.end()
+        while j < len(src) and depth:
+            c = src[j]
+            if src.startswith('//', j):
+                j = src.find('\n', j)
+                j = len(src) if j < 0 else j
+                continue
+            if src.startswith('/*', j):
+                j = src.find('*/', j) + 2
+                continue
+            if c in '"\'':
+                q = c
+                j += 1
+                while j < len(src) and src[j] != q:
+                    j += 2 if src[j] == '\\' else 1
+            elif c == '{':
+                depth += 1
+            elif c == '}':
+                depth -= 1
+            j += 1
+        k += 1
+        name = 'verif_unnamed_ns_%d' % k
+        out.append(src[i:m.start()] + 'namespace %s {' % name + src[m.end():j] + ' using namespace %s;' % name)
+        i = j
+    return ''.join(out), k
+
+
+_prepared = {}
+
+
+def prepared_unit(scratch):
+    """directory holding the unit CBMC reads: src/masa_map.cpp verbatim, or with its unnamed namespaces named"""
+    if scratch in _prepared:
+        return _prepared[scratch]
+    src = open(os.path.join(build.REPO, 'src', 'masa_map.cpp')).read()
+    new, k = named_namespaces(src)
+    d = None
+    if k:
+        d = os.path.join(scratch, 'cbmc-unit')
+        os.makedirs(d, exist_ok=True)
+        with open(os.path.join(d, 'masa_map.cpp'), 'w') as fh:
+            fh.write(new)
+    _prepared[scratch] = (d, k)
+    return d, k
+
+
+def run_cbmc(N, witness=False, trace=False, timeout=3600, unit_dir=None):
+    cmd = ['cbmc', '--cpp11', '-DSWIG', '-DVERIF_N=%d' % N, '-DVERIF_STR_CAP=%d' % N, '-I', os.path.join(CB, 'stub')] + (['-I', unit_dir] if unit_dir else []) + ['-I', os.path.join(build.REPO, 'src'), '-I', build.REPO,
            os.path.join(CB, 'harness.cpp'), '--unwind', str(N + 4), '--unwinding-assertions', '--drop-unused-functions']
     if witness:
         cmd.insert(2, '-DWITNESS')
@@ -66,7 +129,10 @@ def body(chk):
                         'strings longer than the bound are outside the claim (the functions have no length-dependent behaviour other than the loops covered by the unwinding assertions)']
     chk.bounds = dict(string_length='<= %d bytes, every byte value except NUL' % N, unwind=N + 4, unwinding_assertions=True)
     # ---- part 1: CBMC
-    out, dt, cmd = run_cbmc(N)
+    unit_dir, renamed = prepared_unit(chk.scratch)
+    if renamed:
+        chk.assumptions.append('%d unnamed namespace(s) of masa_map.cpp were given names for the CBMC front end (textual, lookup-preserving)' % renamed)
+    out, dt, cmd = run_cbmc(N, unit_dir=unit_dir)
     verdict = 'unsat' if 'VERIFICATION SUCCESSFUL' in out else ('sat' if 'VERIFICATION FAILED' in out else 'error')
     nprops = re.search(r'\*\* (\d+) of (\d+) failed', out)
     ob = framework.Ob('masa_map:cbmc:len<=%d' % N, 'prop', None, 'unsat', dict(obligation='masa_map(s) == filter(lowercase(s), c not in {-, blank}) for every s with |s| <= %d' % N, checker=cmd,
@@ -80,7 +146,7 @@ def body(chk):
         ob.status = 'error'
         chk.infra.append('cbmc did not produce a verdict: ' + out[-800:])
     else:
-        tout, _, _ = run_cbmc(N, trace=True)
+        tout, _, _ = run_cbmc(N, trace=True, unit_dir=unit_dir)
         failed = re.findall(r'\[(\S+)\] line \d+ (.*): FAILURE', tout)
         s_in = parse_trace(tout, N)
         # replay on the real library
@@ -106,7 +172,7 @@ def body(chk):
                 chk.inconclusive.append(ob)
                 print('INCONCLUSIVE obligation=%s CBMC counterexample %r did not reproduce on the real library (got %r)' % (ob.name, s_in, got))
     # witness twin: the end of the harness must be reachable
-    wout, wdt, wcmd = run_cbmc(min(N, 4), witness=True)
+    wout, wdt, wcmd = run_cbmc(min(N, 4), witness=True, unit_dir=unit_dir)
     wob = framework.Ob('masa_map:cbmc:WITNESS', 'witness', None, 'sat', None, None, None)
     wob.result = dict(verdict='sat' if 'WITNESS: end of harness reachable: FAILURE' in wout else 'unsat', time=wdt, output='', solver='cbmc', hash='cbmc-witness')
     chk.obs.append(wob)
